@@ -101,6 +101,12 @@ type AbsObj struct {
 	bb    Value
 	dim   int
 	stamp int // value of the cell counter when the object was made (freshness of havocked results)
+	// member of a family of abstract shapes (element of a symbolic array of shapes): the family
+	// is named by name, the member by the index terms; Evaluate / BoundingBox / nil-ness are
+	// uninterpreted functions of the index
+	fam  bool
+	idx  []*Term
+	nilT *Term // "this element is nil"
 }
 
 // Str is a string value.
@@ -480,6 +486,14 @@ func iteValue(c *Term, a, b Value) (Value, bool) {
 	case *AbsObj:
 		if y, ok := b.(*AbsObj); ok && x == y {
 			return x, true
+		}
+		if y, ok := b.(*AbsObj); ok && x.fam && y.fam && x.name == y.name && len(x.idx) == len(y.idx) {
+			// two members of one family: the member at the merged index
+			idx := make([]*Term, len(x.idx))
+			for i := range idx {
+				idx[i] = mkIte(c, x.idx[i], y.idx[i])
+			}
+			return &AbsObj{name: x.name, typ: x.typ, dim: x.dim, fam: true, idx: idx, stamp: x.stamp, nilT: mkIte(c, x.nilT, y.nilT)}, true
 		}
 		return nil, false
 	case *Func:
